@@ -32,6 +32,7 @@
 #include <etl/functional.hpp>
 #include <etl/inplace_vector.hpp>
 #include <etl/mdspan.hpp>
+#include <etl/memory.hpp>
 #include <etl/numeric.hpp>
 #include <etl/optional.hpp>
 #include <etl/set.hpp>
@@ -2254,6 +2255,11 @@ constexpr auto script_wrappers(u64 seed) -> Dig
         d.add(etl::bit_xor<>{}(e1, 5));
         d.add(etl::logical_not<>{}(e1 == 11));
         d.add(etl::invoke([](int v) { return v * 2; }, e1));
+        // the dispatch primitive itself: the same answer as the compiler's builtin, in both modes
+        d.add(etl::is_constant_evaluated() == __builtin_is_constant_evaluated());
+        // assume_aligned: __builtin_assume_aligned at run time, the pointer itself in constant evaluation
+        d.add(*etl::assume_aligned<alignof(int)>(a.data() + r.below(6)));
+        d.add(etl::assume_aligned<alignof(int)>(a.data()) == a.data());
     }
     return d;
 }
